@@ -38,6 +38,17 @@ CHECKS = {
             "for real ones (routing does not depend on the service implementation).",
             "TLA+ spec + TLC exhaustive/simulate generation, replay into real server.Run/findService",
             "DESIGN.md §3 C08"),
+    "C19": ("model_checking",
+            "Ports.tla states the parser (structural well-formedness of a port string), the [[port]] loop of Run (ports ++ port, "
+            "unknown service names skipped, first compatible entry wins) and which service a connection reaches; TLC checks "
+            "ListenedExactly and ReachUnique for every single-entry configuration over 21 port strings (incl. all malformed shapes "
+            "of the property) x port/ports keys x 10 service lists exhaustively and for sampled 4-entry configurations; every "
+            "configuration is wired by the real server.Run with a recording listener (AddAddress calls) and probed with real "
+            "connections to 11 concrete addresses; server.ToAddr over all port numbers -5..65540 is validated by Ports_Trace.",
+            "IP literals only (no DNS offline); 0.0.0.0 excluded; listen order not compared; the structural description of each "
+            "port string in MC_Ports (slashes, proto, host, hasPort, num) is trusted to describe its text.",
+            "TLA+ spec + TLC exhaustive/simulate generation, replay into real server.Run, TLC trace validation of the parser",
+            "DESIGN.md §3 C19"),
 }
 
 NOT_YET = "check not built yet in this session (see DESIGN.md §10 for the order of construction)"
